@@ -218,7 +218,7 @@ def corpus(seed, n, ekf=True):
     out = []
     for t in range(n):
         shp = shapes[t % len(shapes)]
-        out.append((scenarios.Scenario(shp[0], shp[1], shp[2], shp[3], seed=seed + 31 * t, transcendental=(t % 4 == 3), share_reading=True, rational=(t % 3 == 1), nonsmooth=(t % 5 == 2), magnitude=(t % 6 == 4)), shp))
+        out.append((scenarios.Scenario(shp[0], shp[1], shp[2], shp[3], seed=seed + 31 * t, transcendental=(t % 4 == 3), share_reading=True, rational=(t % 3 == 1), nonsmooth=(t % 5 == 2), magnitude=(t % 6 == 4), redundant=(t % 7 == 5)), shp))
     return out
 
 
